@@ -334,6 +334,14 @@ def gen_cand_query(rng, b):
             root_required = [rng.choice(rt if rt and rng.random() < 0.7 else [T_AVX, T_SSD, T_CUSTOM, MISC])]
         if rng.random() < 0.5 or not root_required:
             root_forbidden = [rng.choice([T_AVX, T_SSD, T_CUSTOM, MISC])]
+    if scenario is not None and scen_group != 0 and v >= 35 and rng.random() < 0.5:
+        # the documented use of root_required: "do not anchor a candidate on a sharing provider" - the sharing provider
+        # serving a suffixed group fails the filter itself, the trees it shares with do not
+        root_required, root_forbidden = [], [MISC]
+        if rng.random() < 0.4:
+            rt = [t for t in _traits_of(b, tree) if t not in _traits_of(b, scenario)] if tree is not None else []
+            if rt:
+                root_required, root_forbidden = [rng.choice(rt)], []
     same_subtree = []
     suffixed = [s for s in suffixes if s != 0]
     resourceless = [gr['suffix'] for gr in groups if not gr['resources']]
@@ -633,11 +641,18 @@ def run(seed, n_states, n_queries, shard=20, workdir=None, verbose=True, keep=Fa
     spec_counts = {}
     spec_bad = []
     spec_classes = {}
+    # the model side: one Coq file per shard of states, evaluated in parallel
+    from concurrent.futures import ThreadPoolExecutor
+    paths = {}
+    for k in range(0, len(states), shard):
+        paths[k] = os.path.join(workdir, 'cand_cases_%d.v' % k)
+        write_cases(paths[k], states[k:k + shard])
+    with ThreadPoolExecutor(max_workers=int(os.environ.get('VERIF_JOBS', '8'))) as ex:
+        results = dict(zip(paths, ex.map(lambda kk: coqrun.run_coq(paths[kk], timeout=3000), list(paths))))
     for k in range(0, len(states), shard):
         part = states[k:k + shard]
-        path = os.path.join(workdir, 'cand_cases_%d.v' % k)
-        write_cases(path, part)
-        res = coqrun.run_coq(path, timeout=3000)
+        path = paths[k]
+        res = results[k]
         assert len(res) == sum(1 + len(c) + sum(1 for q, _o in c if q['kind'] == 'cand') for _b, c in part), len(res)
         pos = 0
         for i, (b, cases) in enumerate(part):
